@@ -20,7 +20,7 @@ import (
 )
 
 type Decl struct {
-	Kind   string // counter gauge timer
+	Kind   string // counter gauge timer histogram text
 	Name   string
 	Keys   []string
 	Hidden bool
@@ -28,7 +28,7 @@ type Decl struct {
 }
 
 type Stmt struct {
-	Op  string // inc set del expire strptime
+	Op  string // inc set obs del expire strptime
 	M   int    // declaration index
 	Val int64  // set: integer literal (float literal is Val + 0.5 when the decl is Float)
 	Dur string // expire: 1ms | 1h
@@ -81,6 +81,9 @@ func (p *Prog) Source() string {
 		if len(d.Keys) > 0 {
 			b.WriteString(" by " + strings.Join(d.Keys, ", "))
 		}
+		if d.Kind == "histogram" {
+			b.WriteString(" buckets 1, 2, 4")
+		}
 		b.WriteString("\n")
 	}
 	for _, r := range p.Rules {
@@ -96,6 +99,10 @@ func (p *Prog) Source() string {
 				} else {
 					fmt.Fprintf(&b, "  %s%s = %d\n", d.Name, index(d), s.Val)
 				}
+			case "obs":
+				fmt.Fprintf(&b, "  %s%s = %d\n", d.Name, index(d), s.Val)
+			case "sets":
+				fmt.Fprintf(&b, "  %s%s = $1\n", d.Name, index(d))
 			case "del":
 				fmt.Fprintf(&b, "  del %s%s\n", d.Name, index(d))
 			case "expire":
@@ -119,12 +126,13 @@ func (p *Prog) Source() string {
 
 // Effect is one attempted store operation of a line.
 type Effect struct {
-	Op   string   `json:"op"` // inc set setf del expire
+	Op   string   `json:"op"` // inc set setf obs del expire fail
 	M    int      `json:"m"`  // index into the program's metric table (v.Metrics)
 	Ls   []string `json:"ls"`
 	Val  int64    `json:"val,omitempty"`
 	Bits uint64   `json:"bits,omitempty"`
 	Dur  int64    `json:"dur,omitempty"` // ns
+	Str  string   `json:"str,omitempty"` // sets: the text assigned
 }
 
 func DurNs(s string) int64 {
@@ -169,6 +177,10 @@ func (p *Prog) Effects(line string) []Effect {
 				} else {
 					e.Val = s.Val
 				}
+			case "obs":
+				e.Val = s.Val
+			case "sets":
+				e.Str = word
 			case "expire":
 				e.Dur = DurNs(s.Dur)
 			}
@@ -193,7 +205,7 @@ type GenOpts struct {
 }
 
 func genDecl(r *vlib.Rand, name string, o GenOpts) Decl {
-	d := Decl{Name: name, Kind: vlib.Pick(r, []string{"counter", "counter", "gauge", "gauge", "timer"})}
+	d := Decl{Name: name, Kind: vlib.Pick(r, []string{"counter", "counter", "counter", "gauge", "gauge", "gauge", "timer", "timer", "histogram", "histogram", "text"})}
 	switch r.Intn(5) {
 	case 0, 1:
 	case 2, 3:
@@ -201,7 +213,7 @@ func genDecl(r *vlib.Rand, name string, o GenOpts) Decl {
 	case 4:
 		d.Keys = []string{"k", "j"}
 	}
-	if d.Kind != "counter" && r.Chance(25) {
+	if d.Kind != "counter" && d.Kind != "histogram" && d.Kind != "text" && r.Chance(25) {
 		d.Float = true
 	}
 	if o.Hidden && r.Chance(12) {
@@ -225,6 +237,12 @@ func (p *Prog) genRules(r *vlib.Rand, o GenOpts) {
 		if d.Float {
 			ops = []string{"set", "set", "del"}
 		}
+		if d.Kind == "histogram" {
+			ops = []string{"obs", "obs", "obs", "del"}
+		}
+		if d.Kind == "text" {
+			ops = []string{"sets", "sets", "del"}
+		}
 		if len(d.Keys) == 0 {
 			// `del` needs an indexed expression ("Cannot delete this" otherwise)
 			ops = ops[:len(ops)-1]
@@ -233,7 +251,7 @@ func (p *Prog) genRules(r *vlib.Rand, o GenOpts) {
 		}
 		s := Stmt{Op: vlib.Pick(r, ops), M: m}
 		switch s.Op {
-		case "set":
+		case "set", "obs":
 			s.Val = int64(1 + r.Intn(9))
 		case "expire":
 			s.Dur = vlib.Pick(r, []string{"1ms", "1h"})
@@ -262,6 +280,12 @@ func (p *Prog) genRules(r *vlib.Rand, o GenOpts) {
 			s := Stmt{Op: "inc", M: m}
 			if d.Float || d.Kind != "counter" {
 				s = Stmt{Op: "set", M: m, Val: int64(1 + r.Intn(9))}
+			}
+			if d.Kind == "histogram" {
+				s.Op = "obs"
+			}
+			if d.Kind == "text" {
+				s.Op = "sets"
 			}
 			p.Rules = append(p.Rules, Rule{Tok: Toks[(nr+m)%len(Toks)], Stmts: []Stmt{s}})
 		}
@@ -321,7 +345,7 @@ func Edit(r *vlib.Rand, p *Prog, kind string, o GenOpts) *Prog {
 	case "type":
 		i := pick()
 		d := &q.Decls[i]
-		if d.Kind == "counter" {
+		if d.Kind == "counter" || d.Kind == "histogram" || d.Kind == "text" {
 			d.Kind = "gauge" // a counter cannot take a float literal in this grammar
 		}
 		d.Float = !d.Float
@@ -376,6 +400,12 @@ func Edit(r *vlib.Rand, p *Prog, kind string, o GenOpts) *Prog {
 				s := Stmt{Op: "inc", M: m}
 				if nd.Kind != "counter" {
 					s = Stmt{Op: "set", M: m, Val: 3}
+				}
+				if nd.Kind == "histogram" {
+					s.Op = "obs"
+				}
+				if nd.Kind == "text" {
+					s.Op = "sets"
 				}
 				q.Rules = append(q.Rules, Rule{Tok: vlib.Pick(r, Toks), Stmts: []Stmt{s}})
 				break
@@ -435,6 +465,21 @@ func (p *Prog) fixStmts(r *vlib.Rand) {
 				continue
 			}
 			d := p.Decls[s.M]
+			if d.Kind == "histogram" {
+				if s.Op == "inc" || s.Op == "set" || s.Op == "sets" {
+					s.Op, s.Val = "obs", int64(1+r.Intn(9))
+				}
+				continue
+			}
+			if d.Kind == "text" {
+				if s.Op == "inc" || s.Op == "set" || s.Op == "obs" {
+					s.Op = "sets"
+				}
+				continue
+			}
+			if s.Op == "obs" || s.Op == "sets" {
+				s.Op, s.Val = "set", int64(1+r.Intn(9))
+			}
 			if d.Float && s.Op == "inc" {
 				s.Op, s.Val = "set", int64(1+r.Intn(9))
 			}
